@@ -327,7 +327,9 @@ def _c06_nontrivial(line, verdict):
 PROPS["C06"] = {
     "modules": ["IbexProofs.Props.C06"],
     "harnesses": ["h_solver"],
-    "workloads": lambda tier, seed: [{"harness": "h_solver", "tag": "verdicts", "args": ["c06", seed, 300 if tier == "quick" else 5000]}],
+    "workloads": lambda tier, seed: [{"harness": "h_solver", "tag": "verdicts", "args": ["c06", seed, 300 if tier == "quick" else 5000]},
+                                     # the final status and the boxes of searches that were interrupted, saved, reloaded and resumed
+                                     {"harness": "h_solver", "tag": "resume", "args": ["c18r", seed + 2000, 14 if tier == "quick" else 120] + (["full"] if tier == "thorough" else [])}],
     "nontrivial": _c06_nontrivial,
     "rule": "real Solver runs (same assemblies as C05, plus DefaultSolver) on random systems with planted exact solutions, square systems with 2-3 "
             "regular solutions all known exactly, systems with singular solutions, under-constrained and inequality-only systems; for every box of "
